@@ -26,6 +26,8 @@ def main():
             print(sp.name, "NATIVE BUILD FAILED\n", err[-1500:]); continue
         alpha = getattr(sp, "smoke_alphabet", None) or sorted(set(c for c in info["grammar"] if c.isalnum() and c.islower()) | set(" -:+=()é€"))[:9]
         for (h, u, call) in entries:
-            p = subprocess.run([exe, h, "--enum", str(min(sp.n + 1, 5) if False else sp.n), hexs(alpha)], capture_output=True, text=True)
-            print(sp.name, (p.stdout.strip().splitlines() or [p.stderr[-300:]])[-1] if p.returncode == 0 else p.stdout[-1200:] + p.stderr[-300:])
+            for extra in (getattr(sp, "smoke_extras", None) or [None]):
+                cmd = [exe, h, "--enum", str(sp.n), hexs(alpha)] + ([extra] if extra else [])
+                p = subprocess.run(cmd, capture_output=True, text=True)
+                print(sp.name, (p.stdout.strip().splitlines() or [p.stderr[-300:]])[-1] if p.returncode == 0 else p.stdout[-1200:] + p.stderr[-300:])
 main()
